@@ -53,6 +53,7 @@ type PodSpec struct {
 	//   cs-new  CloneSet-owned, controller-revision-hash = update revision
 	//   cs-old  CloneSet-owned, controller-revision-hash of another revision
 	//   cs-none CloneSet-owned, no revision label at all
+	//   cs-empty CloneSet-owned, controller-revision-hash label present with the (legal, user-writable) empty value
 	//   rs-new  ReplicaSet-owned (ReplicaSet of the new template in the store), pod-template-hash only
 	//   rs-old  ReplicaSet-owned (ReplicaSet of the old template in the store), pod-template-hash only
 	//   rs-new-hashed  rs-new that already carries the computed controller-revision-hash
@@ -168,6 +169,10 @@ func mkPod(i int, p PodSpec) *corev1.Pod {
 	case "cs-none":
 		set("app", "demo")
 		owner("apps.kruise.io/v1alpha1", "CloneSet", "demo")
+	case "cs-empty":
+		set("app", "demo")
+		owner("apps.kruise.io/v1alpha1", "CloneSet", "demo")
+		set(apps.ControllerRevisionHashLabelKey, "")
 	case "rs-new":
 		set("app", "demo")
 		owner("apps/v1", "ReplicaSet", "rs-new")
@@ -723,7 +728,7 @@ func runCase(c Case, trace io.Writer, w *world) (res result, wOut *world) {
 			switch {
 			case p.Term:
 				cls = "terminating"
-			case p.Rev == "cs-none" || p.Rev == "bare" || p.Rev == "rs-gone":
+			case p.Rev == "cs-none" || p.Rev == "cs-empty" || p.Rev == "bare" || p.Rev == "rs-gone":
 				cls = "no-revision"
 			}
 			res.verdicts = append(res.verdicts, verdict{"C12/label-target/" + cls,
@@ -894,7 +899,7 @@ func families(thorough bool) []family {
 	f1b = append(f1b, notBelonging...)
 
 	// F2: owners / revisions / terminating
-	revs := []string{"cs-new", "cs-old", "cs-none", "rs-new", "rs-old", "rs-new-hashed", "rs-gone"}
+	revs := []string{"cs-new", "cs-old", "cs-none", "cs-empty", "rs-new", "rs-old", "rs-new-hashed", "rs-gone"}
 	l2 := [][2]string{{"", ""}, {"cur", "1"}, {"cur", "0"}}
 	if thorough {
 		revs = append(revs, "bare")
